@@ -61,7 +61,7 @@ for p in props:
 
 manifest = {
     "version": 1,
-    "setup_cmd": "cd lean && lake build TxV.Core.BridgeC01 " + " ".join(f"TxV.Props.{c['property_id']}" for c in checks),
+    "setup_cmd": "cd lean && lake build TxV.Core.BridgeC01 TxV.Core.BridgeEval TxV.Core.Placed " + " ".join(f"TxV.Props.{c['property_id']}" for c in checks),
     "hooks": {
         "guard": "TRANSACTRON_VERIF",
         "enable": "no hooks are needed: checks import /repo's working tree through the editable install in /venv and observe public attributes/signals; the guard name is reserved",
